@@ -793,6 +793,9 @@ LABEL:
 
 	// }
 	case tokenRightBrace:
+		if _, ok := p.parent().(*ast.Label); ok {
+			p.removeLastAncestor()
+		}
 		var unexpected bool
 		switch end {
 		case tokenEOF:
@@ -806,9 +809,6 @@ LABEL:
 		}
 		if unexpected {
 			panic(syntaxError(tok.pos, "unexpected }, expecting statement"))
-		}
-		if _, ok := p.parent().(*ast.Label); ok {
-			p.removeLastAncestor()
 		}
 		bracesEnd := tok.pos.End
 		p.parent().Pos().End = bracesEnd
